@@ -205,15 +205,18 @@ def r3(fx):
     enc = fx.fn('encoder', '_encode')
     it = Interp()
     genv = encoder_env(fx.forest, it)
-    sa_if = single([s for s in enc.body if isinstance(s, ast.If) and ast.unparse(s.test) == 'sa_mode'], '`if sa_mode:`')
-    sm = single([s for s in enc.body if isinstance(s, ast.Assign) and ast.unparse(s.targets[0]) == 'sa_mode'], 'sa_mode')
-    yield ob('sa_mode = sa_info is not None', nf.same(sm.value, 'sa_info is not None'), sm, got=ast.unparse(sm.value), want='sa_info is not None')
-
-    SA = SAModel
-    buf = BufModel()
-    it.block(sa_if.body, dict(genv, buff=buf, sa_info=SA((3, 9, 11, 0xC4))))
-    yield ob('header bits', buf.appends == [(3, 4), (9, 4), (11, 4), (0xC4, 8)], sa_if, got=buf.appends,
-             want=[(3, 4), (9, 4), (11, 4), (0xC4, 8)])
+    from .models import trace_encode
+    for sa, want_hdr in ((SAModel((3, 9, 11, 0xC4)), [(3, 4), (9, 4), (11, 4), (0xC4, 8)]), (None, [])):
+        rec, res, info = trace_encode(fx, 5, 'M', 'M', sa_info=sa)
+        buf = info['buffers'][0] if len(info['buffers']) == 1 else None
+        need(buf is not None, '_encode: one bit buffer expected')
+        hdr = [a for a in buf.appends if isinstance(a[0], int)]
+        ws = [r for r in rec if r[0] == 'write_segment']
+        boost = [r for r in rec if r[0] == 'boost_error_level']
+        is_sa = (list(boost[0][1][4:]) + [boost[0][2].get('is_sa', False)])[0] if boost else None
+        yield ob(f'header bits {"with" if sa else "without"} Structured Append information: written before the first segment; the level booster is told',
+                 hdr == want_hdr and ws and ws[0][3] == sum(w for _, w in want_hdr) and bool(is_sa) == (sa is not None), enc,
+                 got=(hdr, ws[0][3] if ws else None, is_sa), want=(want_hdr, sum(w for _, w in want_hdr), sa is not None))
     cls = fx.forest.cls('encoder', '_StructuredAppendInfo')
     new = fx.fn('encoder', '_StructuredAppendInfo.__new__')
     r = single([s for s in new.body if isinstance(s, ast.Return)], 'return of _StructuredAppendInfo.__new__')
